@@ -149,6 +149,14 @@ Grab(o) == /\ Grabs /\ pc \in {"val", "est"} /\ edits < MaxEdits
            /\ stale' = (IF WasRead(o) THEN stale \cup {o} ELSE stale)
            /\ edits' = edits + 1 /\ Log(H("env", "grab", o, ""))
            /\ UNCHANGED <<rej, rev, pc, cur, ctl, todo, sub, setrefs, crt, vok, blk, faults, recs, doneOk>>
+\* ... or creates, with itself as the controller, an object that the Establish in flight found missing and has already
+\* dry-run created: the real Create is answered AlreadyExists, Establish returns the error, the object stays Q's.
+GrabCreate(o) == /\ Grabs /\ pc \in {"val", "est"} /\ edits < MaxEdits
+                 /\ o \in crt /\ ~obj[o].ex
+                 /\ obj' = [obj EXCEPT ![o] = [ex |-> TRUE, own |-> [NoOwn EXCEPT !["Q"] = "ctrl"]]]
+                 /\ stale' = stale \cup {o}
+                 /\ edits' = edits + 1 /\ Log(H("env", "grabcreate", o, ""))
+                 /\ UNCHANGED <<rej, rev, pc, cur, ctl, todo, sub, setrefs, crt, vok, blk, faults, recs, doneOk>>
 
 ----------------------------------------------------------------------------
 (* The reconcile of one revision.  f = "ok" | "fail" (error / conflict /   *)
@@ -250,7 +258,7 @@ Written(o) == IF ~obj[o].ex
               THEN [obj EXCEPT ![o] = [ex |-> TRUE, own |-> [NoOwn EXCEPT ![cur] = "ctrl", !["P"] = "owner"]]]
               ELSE [obj EXCEPT ![o].own = [@ EXCEPT ![cur] = IF ctl THEN "ctrl" ELSE "owner", !["P"] = "owner"]]
 EstNext == IF Tail(todo) = <<>> THEN Goto("status", <<>>, "get", TRUE) ELSE Goto("est", Tail(todo), "upd", setrefs)
-WrVerb(o) == IF obj[o].ex THEN "update" ELSE "create"
+WrVerb(o) == IF o \in crt THEN "create" ELSE "update"     \* decided by what the validate phase found, not by what is there now
 EstWrite ==
   /\ pc = "est"
   /\ LET o == Head(todo) IN
@@ -271,7 +279,7 @@ Status ==
   /\ UNCHANGED <<obj, rej, cur, ctl, edits>>
 
 Rec == (\E r \in Revs : Start(r)) \/ RelGet \/ RelUpd \/ ValGet \/ ValDry \/ EstWrite \/ Status
-Next == Env \/ Rec \/ \E o \in Objs : Grab(o)
+Next == Env \/ Rec \/ \E o \in Objs : Grab(o) \/ GrabCreate(o)
 Spec == Init /\ [][Next]_vars
 
 ----------------------------------------------------------------------------
